@@ -178,9 +178,14 @@ def _helper_call(N, e, macros):
         return None
     while isinstance(e, N.Filter) and e.name in ("trim", "indent", "string", "safe") and e.node is not None:
         e = e.node
-    if isinstance(e, N.Call) and isinstance(e.node, N.Name) and e.node.name in macros and not ATOMIC_MACRO.match(e.node.name) \
-            and e.dyn_args is None and e.dyn_kwargs is None:
-        return macros[e.node.name], e
+    if isinstance(e, N.Call) and isinstance(e.node, N.Name) and e.node.name in macros and e.dyn_args is None and e.dyn_kwargs is None:
+        name = e.node.name
+        mac = macros[name]
+        # an emitter of the codec family has the family's signature (type, reference, offset); a macro that merely carries a
+        # family-like name (`_deserialize_bit_run(destination, length)`) is a helper and is expanded in place
+        atomic = ATOMIC_MACRO.match(name) is not None and (len(mac.args) == 3 or name in ("_pad_to_alignment", "assert"))
+        if not atomic:
+            return mac, e
     return None
 
 
